@@ -35,7 +35,7 @@ Admissible(l, r) ==
     /\ (l.k \in {"if", "elif"} /\ Evaluated(l, r.cstk)) => Val(r.defs, l.n) # -1
     /\ (l.k = "ifnz" /\ Evaluated(l, r.cstk)) => Val(r.defs, l.n) >= 0
     \* an alias used as an operand of a compiled line needs its target to have a value
-    /\ (l.k \in {"i2", "i3", "byte"} /\ l.n \in SymNames /\ Active(r.cstk)) => (r.defs[l.n] = AliasS1 => r.defs["S1"] >= 0)
+    /\ (l.k \in RefKinds /\ l.n \in SymNames /\ Active(r.cstk)) => (r.defs[l.n] = AliasS1 => r.defs["S1"] >= 0)
     \* include brackets nest, and an include inside an unselected branch is rendered with an empty file
     /\ l.k = "ince" => (r.fstk # <<>> /\ (Active(Last(r.fstk).cstk) => r.cstk = <<>>))
     /\ (l.k # "ince" /\ r.fstk # <<>> /\ ~Active(Last(r.fstk).cstk)) => FALSE
@@ -188,7 +188,7 @@ Visible(refFile, refRegion, key) ==
 ResolvesOnlyToVisible ==
     Ok => \A j \in 1..Len(res.objs) :
             LET o == res.objs[j] IN
-            (o.k \in {"i2", "i3", "byte"} /\ o.n # "") =>
+            (o.k \in RefKinds /\ o.n # "") =>
                 \E e \in 1..Len(res.labs) : /\ res.labs[e].key[2] = o.n
                                             /\ Visible(o.file, o.region, res.labs[e].key)
                                             /\ res.labs[e].v = OperandVal(o, res.labs)
@@ -207,7 +207,7 @@ PasteClass(p) ==
     /\ \E j \in 1..Len(p) : p[j].k = "incb"
     /\ \A j \in 1..Len(p) : p[j].k \notin {"zone", "orgz"}
     /\ \A j \in 1..Len(p) :
-          (p[j].n # "" /\ p[j].k \in {"lab", "const", "i2", "i3", "byte"}) => Cls(p[j].n) = "g"
+          (p[j].n # "" /\ p[j].k \in ({"lab", "const"} \cup RefKinds)) => Cls(p[j].n) = "g"
     /\ ~InsideInc(p, 1, 0)
 GlobalVals(labs) == {<<labs[e].key[2], labs[e].v>> : e \in 1..Len(labs)}
 IncludeIsPaste ==
